@@ -260,6 +260,16 @@ pub fn op_state(a: &[&str]) -> String {
             };
             with_proof_types!(pti, state_encode, &au, pt, &ctx)
         }
+        ["encodeg", kind, au, tb, ctx] => {
+            let (Some(au), Some(pt), Some(ctx)) = (addr(au), tb.parse().ok().and_then(proof_type_by_index), unhex(ctx)) else { return "bad-op".into() };
+            // the context bytes are copied into a properly aligned value of the context type first
+            macro_rules! enc { ($t:ty) => {{
+                if ctx.len() != std::mem::size_of::<$t>() { return "bad-op".into() }
+                let v: $t = bytemuck::pod_read_unaligned(&ctx);
+                hex(&ProofContextState::<$t>::encode(&au, pt, &v))
+            }} }
+            match *kind { "u64" => enc!(u64), "u32x3" => enc!([u32; 3]), "u16x5" => enc!([u16; 5]), "u8x7" => enc!([u8; 7]), "u128" => enc!(u128), _ => "bad-op".into() }
+        }
         ["decode", pti, h] => {
             let (Ok(pti), Some(b)) = (pti.parse::<usize>(), unhex(h)) else {
                 return "bad-op".into();
